@@ -504,6 +504,29 @@ def perturbed_records(env, case, model, rec):
     return out
 
 
+def mixture_emptied_records(env, case, model, rec):
+    """Mixture only: the recorded pre-step state with the last cluster moved far away from every individual (its mean
+    reference time shifted by 400 years), so that its responsibilities vanish: the probabilities must still be the mean
+    responsibilities and sum to one."""
+    out = []
+    if not rec or rec[-1]["new"] is None:
+        return out
+    base = rec[-1]
+    try:
+        pre = base["pre"].clone(disable_auto_fork=True)
+        mu = pre["tau_mean"].clone()
+        mu[-1] = mu[-1] + 400.0
+        pre["tau_mean"] = mu
+        work = pre.clone(disable_auto_fork=True)
+        with core.quiet():
+            type(model).update_parameters(work, base["S"], burn_in=False)
+        new = {p: work[p].detach().clone() for p in work.dag.sorted_variables_by_type[env.MP]}
+        out.append(dict(k=f"{base['k']}+emptied-cluster", pre=pre, S=base["S"], burn=False, new=new, err=None, probs_only=True))
+    except Exception as e:  # noqa  (degenerate responsibilities may make the other rules fail: outside the checked scope)
+        out.append(dict(k=f"{base['k']}+emptied-cluster", pre=None, S=None, burn=False, new=None, err=err_class(e), probs_only=True))
+    return out
+
+
 def run_case(env, chk, case, items):
     try:
         with core.quiet():
@@ -522,7 +545,7 @@ def run_case(env, chk, case, items):
     chk.tag("fit_outcome", outcome)
     nb = case["n_burn"]
     mixture = case["model"] == "mixture_logistic"
-    extra = [] if mixture else perturbed_records(env, case, model, rec)
+    extra = mixture_emptied_records(env, case, model, rec) if mixture else perturbed_records(env, case, model, rec)
     missing_inside = bool(((dataset.mask.sum(dim=2) > 0) & (dataset.mask.sum(dim=2) < dataset.mask.shape[2])).any())
     for r in rec + extra:
         k = r["k"]
